@@ -15,6 +15,21 @@ def okey(o):
     if k in ("global", "func"): return (k, o["v"])
     return (k, repr(o.get("v")))
 
+def single_atom(l):
+    if l.c == 0 and len(l.t) == 1:
+        (a, k), = l.t.items()
+        if k == 1: return a
+    return None
+
+
+def prod_atom(a, b):
+    """canonical atom for the product of two single-atom linear forms"""
+    x, y = single_atom(a), single_atom(b)
+    if x is None or y is None: return None
+    x, y = sorted((x, y), key=repr)
+    return ("prod", x, y)
+
+
 class FnInfo:
     """per-function derived facts"""
     def __init__(self, fn, world):
@@ -65,6 +80,8 @@ class FnInfo:
                 roots.add(self.ptr(v)[0])
             roots.discard(("null",)); roots.discard(("pending",))
             if len(roots) == 1:
+                st = self._strided(i) if i.op == "phi" else None
+                if st is not None: return (next(iter(roots)), st)
                 return (roots.pop(), Lin.atom(("pv", i.id)))   # same object, symbolic offset
             return (("multi", tuple(sorted(map(repr, roots)))), Lin.atom(("pv", i.id)))
         if i.op == "load":
@@ -77,6 +94,66 @@ class FnInfo:
             return (("loaded", i.id), Lin())
         if i.op == "inttoptr": return (("unknown", "inttoptr"), Lin())
         return (("unknown", i.op), Lin())
+
+    def _strided(self, phi):
+        """p = phi(p0, p + S) in a loop with a unit counter i = phi(0, i + 1), both advanced exactly once per iteration:
+        offset(p) = offset(p0) + i * S   (S loop-invariant; a product atom when S is symbolic)"""
+        fn = self.fn; loops = fn.loops(); h = phi.block.id
+        if h not in loops or len(phi["incoming"]) != 2: return None
+        body = loops[h]
+        ins = phi["incoming"]
+        out = [x for x in ins if x["b"] not in body]; back = [x for x in ins if x["b"] in body]
+        if len(out) != 1 or len(back) != 1: return None
+        latch = back[0]["b"]
+        if sum(1 for p in phi.block.preds if p.id in body) != 1: return None
+        bv = back[0]["v"]
+        if bv["k"] != "inst": return None
+        bi = fn.imap[bv["v"]]
+        if not fn.dominates(bi.block.id, latch) or bi.block.id not in body: return None
+        # offset of the back value relative to the phi itself
+        key = okey({"k": "inst", "v": phi.id})
+        saved = self._ptr.get(key)
+        self._ptr[key] = (("self", phi.id), Lin())
+        try:
+            memo = dict(self._ptr)
+            r, off = self._ptr_compute(bv) if okey(bv) not in memo or memo[okey(bv)][0] == ("pending",) else memo[okey(bv)]
+        finally:
+            # drop everything computed relative to the placeholder
+            for k2 in [k2 for k2, v in self._ptr.items() if v[0] == ("self", phi.id) and k2 != key]: del self._ptr[k2]
+            if saved is not None: self._ptr[key] = saved
+        if r != ("self", phi.id): return None
+        S = off
+        def invariant(l):
+            for a in l.atoms():
+                ii = None
+                if isinstance(a, tuple) and a[0] == "v" and a[1] == "inst": ii = fn.imap.get(a[2])
+                elif isinstance(a, tuple) and a[0] in ("ld", "i", "trunc", "and", "mul"): ii = fn.imap.get(a[1])
+                elif isinstance(a, tuple) and a[0] in ("arg", "entry"): continue
+                elif isinstance(a, tuple) and a[0] == "v" and a[1] == "arg": continue
+                else: return False
+                if ii is None or ii.block.id in body: return False
+            return True
+        if not invariant(S): return None
+        # the unit counter of this loop
+        ctr = None
+        for j in phi.block.insts:
+            if j.op != "phi" or j is phi or j["t"].endswith("*") or len(j["incoming"]) != 2: continue
+            o2 = [x for x in j["incoming"] if x["b"] not in body]; b2 = [x for x in j["incoming"] if x["b"] in body]
+            if len(o2) != 1 or len(b2) != 1: continue
+            if not (o2[0]["v"]["k"] == "int" and int(o2[0]["v"]["v"]) == 0): continue
+            sv = b2[0]["v"]
+            if sv["k"] != "inst": continue
+            si = fn.imap[sv["v"]]
+            if si.op == "add" and si.ops[0]["k"] == "inst" and si.ops[0]["v"] == j.id and si.ops[1]["k"] == "int" and int(si.ops[1]["v"]) == 1 \
+                    and fn.dominates(si.block.id, latch):
+                ctr = j; break
+        if ctr is None: return None
+        r0, off0 = self.ptr(out[0]["v"])
+        il = self.lin({"k": "inst", "v": ctr.id, "t": ctr["t"]})
+        if S.is_const(): return off0 + il.scale(S.c)
+        pa = prod_atom(il, S)
+        if pa is None: return None
+        return off0 + Lin.atom(pa)
 
     # ---------- linear form of integer values ----------
     def lin(self, o):
@@ -112,7 +189,8 @@ class FnInfo:
             a, b = A(0), A(1)
             if a.is_const(): return b.scale(a.c)
             if b.is_const(): return a.scale(b.c)
-            return Lin.atom(("mul", i.id))
+            pa = prod_atom(a, b)
+            return Lin.atom(pa) if pa is not None else Lin.atom(("mul", i.id))
         if op == "shl" and cint(1) is not None: return A(0).scale(1 << cint(1))
         if op in ("zext", "sext"):
             return A(0)                                          # value-preserving for in-range values
